@@ -188,7 +188,7 @@ class C17(Check):
         import okdmr.dmrlib.hytera.pdu.radio_control_protocol  # noqa
 
     def budget(self, tier):
-        return 150.0 if tier == "quick" else 1500.0
+        return 150.0 if tier == "quick" else 3000.0
 
     def arms(self, tier):
         if tier == "quick":
